@@ -40,9 +40,6 @@ func (m *Monitors) auditCommit(c *types.Commit, h int64, id types.BlockID) strin
 		} else if v.Round != round {
 			return fmt.Sprintf("precommits of different rounds (%d and %d)", round, v.Round)
 		}
-		if v.ValidatorIndex != i || !bytes.Equal(v.ValidatorAddress, m.nt.Vals[i].Address) {
-			return fmt.Sprintf("entry %d carries validator index %d / wrong address", i, v.ValidatorIndex)
-		}
 		if !m.nt.Vals[i].PubKey.VerifyBytes(types.SignBytes(ChainID, v), v.Signature) {
 			return fmt.Sprintf("signature of entry %d does not verify", i)
 		}
